@@ -2071,6 +2071,8 @@ func (r *inlineByteReader) next() bool {
 	if node.Kind() != IndentKind && r.pos+1 < node.Span().End {
 		if r.source[r.pos] == 0 && r.source[r.pos+1] == 0 {
 			r.virtualPos = (r.virtualPos + 1) % len(nullReplacementString)
+		} else {
+			r.virtualPos = 0
 		}
 		r.prevPos = r.pos
 		r.pos++
